@@ -99,6 +99,9 @@ def items(tier):
     add("network-fromto", mod="network", relative_dx=False, seeds="use_df")
     add("network-all", mod="network", relative_dx=False, seeds="use_df", allsig=True)
     add("network-reused-upstream-changed", mod="network-pre", relative_dx=False, seeds="use_df")
+    add("network-input-through-a-slice-of-a-slice", mod="network-nested-slice", relative_dx=False, seeds="use_df")
+    add("einsum-dot-leftover-sensitivities", mod="einsum", expr="dot2", relative_dx=False, seeds="use_df", leftover=True)
+    add("network-fromto-leftover-sensitivities", mod="network", relative_dx=False, seeds="use_df", leftover=True)
     add("view-output-reshape", mod="view-output", view="reshape", relative_dx=False, seeds="use_df")
     add("view-output-strided", mod="view-output", view="strided", relative_dx=True, seeds="use_df")
     return out
@@ -175,6 +178,16 @@ def _build(V, cfg):
         net = pym.Network(m0, m1)
         return net, [sz], [m1.sig_out[0]], [sx, sc, sz, m0.sig_out[0], m1.sig_out[0]], dict(
             fromsig=[sz], tosig=[m1.sig_out[0]], upstream=sx, upstream_new=V.reals("xnew", 2, nonzero=True))
+    if cfg["mod"] == "network-nested-slice":
+        # the perturbed signal reaches the second module only through a slice of a slice (x[1:5][0:2])
+        x = V.reals("x", 5, nonzero=True)
+        z = V.reals("z", 2, nonzero=True)
+        c = V.reals("c", 2, nonzero=True)
+        sx, sz, sc = pym.Signal("x", x), pym.Signal("z", z), pym.Signal("c", c)
+        m0 = pym.EinSum([sz, sc], expression="i,i->i")
+        m1 = pym.EinSum([sx[1:5][0:2], m0.sig_out[0]], expression="i,i->")
+        net = pym.Network(m0, m1)
+        return net, [sx], [m1.sig_out[0]], [sx, sz, sc, m0.sig_out[0], m1.sig_out[0]], dict(fromsig=[sx], tosig=[m1.sig_out[0]], base=[sx])
     if cfg["mod"] == "view-output":
         # a module whose output state shares memory with its (perturbed) input: y = x.reshape(2, 2) / x[::2]
         x = V.reals("x", 4, nonzero=True)
@@ -205,7 +218,7 @@ def scenario(V, P, cfg):
     import pymoto as pym
     from pymoto.core_objects import SignalSlice as _SignalSlice
     blk, ins, outs, allsig, extra = _build(V, cfg)
-    isnet = cfg["mod"] in ("network", "network-pre")
+    isnet = cfg["mod"] in ("network", "network-pre", "network-nested-slice")
     dx = V.real("dx", positive=True, default=0.001)
     # reference response at the base point (real response of the block)
     blk.response()
@@ -215,6 +228,11 @@ def scenario(V, P, cfg):
     if ins is None:
         ins = list(blk.sig_in)       # a Network derives both lists from sets: take its own order
         outs = list(blk.sig_out)
+    if cfg.get("leftover"):
+        # the block was used before (a back-propagation for another purpose, no reset): sensitivities are set on its inputs
+        for k_, s_ in enumerate(ins if ins is not None else list(blk.sig_in)):
+            st_ = dense_entries(s_.state)
+            s_.sensitivity = (V.reals("left%d" % k_, np.shape(st_)) if np.ndim(st_) else V.real("left%d" % k_))
     snap_states = [_snap(s.state) for s in ins]
     base_sigs = extra.get("base", []) if isinstance(extra, dict) else []
     snap_base = [_snap(s.state) for s in base_sigs]
